@@ -152,6 +152,7 @@ def sig_class(c):
         if k == 'obj': return '%s{%s}' % (t['name'], ','.join('%s:%s%s' % (f['n'], tn(f['t']), '' if (f['min'], f['max']) == (0, 1) else '[%s,%s]' % (f['min'], f['max'])) for f in S.flat_fields(t)))
         if k == 'arr': return 'Array(%s)' % tn(t['of'])
         if k == 'any': return 'AnyXml'
+        if k == 'enum': return 'Enum'
         return '@' + tn(t['of'])
     return '%s|%s|args=%s|rets=%s' % (c['id'], c['style'],
         ';'.join('%s%s' % (tn(f['t']), '' if (f['min'], f['max']) == (0, 1) else '[%s,%s]' % (f['min'], f['max'])) for f in c['args']),
